@@ -168,8 +168,8 @@ let judge op a got =
            let (r1, f1, w1, fl) = one_form (reduce nd) g1 and (r2, f2, w2, _) = one_form (reduce2 nd) g2 in
            let want = "ok " ^ w1 ^ " | " ^ w2 in
            let fid = if f1 && f2 then "asis=same" else "asis=diff" in
-           if r1 = 2 || r2 = 2 then fail want
-           else if r1 = 1 || r2 = 1 then known "rat_to_float_double_rounding" want
+           (* F37 is repaired: a second rounding (r = 1) is a failure like any other *)
+           if r1 <> 0 || r2 <> 0 then fail want
            else pass ~extra:(fid ^ " cls=" ^ fl) ()
        | _ -> fail "ok")
   | "fl2r" ->
